@@ -136,6 +136,12 @@ func e2eInjectWorker(args []string) error {
 		cfg.EndMarker, cfg.UEIPAlloc, cfg.UEPool = true, p.Alloc, "10.250.0.0/24"
 	}
 
+	// every third shard runs with the heartbeat timer on (the agent's own heartbeats are too far apart to matter): the handlers
+	// then also feed the association's heartbeat monitor
+	if p.Shard%3 == 1 {
+		cfg.HBTimer, cfg.HBInterval = true, "600s"
+	}
+
 	w, err := e2e.NewWorld(filepath.Join(p.Dir, "w"), p.AgentBin, p.Trace, cfg, int(p.Seed%1000)*1000+1)
 	if err != nil {
 		return err
